@@ -49,11 +49,11 @@ def host(flavour):
     os.makedirs(d, exist_ok=True)
     exe = os.path.join(d, "host-" + flavour)
     src = os.path.join(NATIVE, "host.c")
-    tag = _hash_files([src], flavour)
+    tag = _hash_files([src, os.path.abspath(__file__)], flavour)
     if not _stamp_ok(exe, tag):
         inc = _sh(["/usr/bin/python3.11-config", "--includes"]).split()
         ld = _sh(["/usr/bin/python3.11-config", "--ldflags", "--embed"]).split()
-        _sh(["gcc", "-O1", "-g1"] + HOST_FLAGS[flavour] + inc + [src, "-o", exe] + ld + ["-rdynamic"])
+        _sh(["gcc", "-O1", "-g1"] + HOST_FLAGS[flavour] + inc + [src, "-o", exe] + ld + ["-rdynamic", "-Wl,--no-as-needed", "-lstdc++", "-Wl,--as-needed"])
         _write_stamp(exe, tag)
     return exe
 
